@@ -18,7 +18,7 @@ def analyse(ctx, cfg):
         return _cache[F.path]
     P = mirflow.Program(F)
     names = [n for n, r in P.runs.items() if r.body["span"]["f"] in C06_FILES or n in C06_EXTRA_FNS]
-    for rnd in range(4):
+    for rnd in range(6):
         changed = False
         P.arg_obs = {}
         P.arg_rel_obs = {}
@@ -29,7 +29,10 @@ def analyse(ctx, cfg):
             req = {}
             for s in sites.values():
                 if s.req and not s.proved:
-                    req[s.req[0]] = max(req.get(s.req[0], 0), s.req[1])
+                    if s.req[1] == "GN" or req.get(s.req[0]) == "GN":
+                        req[s.req[0]] = "GN"
+                    else:
+                        req[s.req[0]] = max(req.get(s.req[0], 0), s.req[1])
             if req != P.requires.get(n, {}):
                 P.requires[n] = req
                 changed = True
@@ -70,7 +73,7 @@ def analyse(ctx, cfg):
             if t and t.get("k") == "Call":
                 called.add(mirflow.norm(t.get("resolved") or t.get("callee")) or "")
     for n in names:
-        if "{closure" in n or n not in called:
+        if ("{closure" in n and n not in P.direct_closures) or n not in called:
             for s_ in P.runs[n].sites.values():
                 if s_.req and not s_.proved:
                     s_.req = None
